@@ -266,9 +266,10 @@ func init() {
  ABS ACOS ACOSH ASIN ASINH ATAN ATAN2 ATANH CBRT CEIL COS COSH EXP EXP2 EXPM1 FLOOR IS_INF IS_NAN LOG LOG10 LOG1P LOG2 LOGB POW ROUND SIN SINH SQRT
  TAN TANH BIN_TO_DEC OCT_TO_DEC HEX_TO_DEC ENOTATION_TO_DEC BIN OCT HEX ENOTATION NUMBER_FORMAT TRIM LTRIM RTRIM UPPER LOWER BASE64_ENCODE
  BASE64_DECODE HEX_ENCODE HEX_DECODE LEN BYTE_LEN WIDTH LPAD RPAD SUBSTR INSTR LIST_ELEM REGEXP_MATCH REGEXP_FIND REGEXP_FIND_SUBMATCHES
- REGEXP_FIND_ALL REGEXP_REPLACE TITLE_CASE FORMAT JSON_VALUE UDF UAGG`) {
+ REGEXP_FIND_ALL REGEXP_REPLACE TITLE_CASE FORMAT JSON_VALUE UDF UAGG CTE1 CTE2 R`) {
 		safeFunctions[f] = true
 	}
+	safeFunctions["MY CTE"] = true // names of the generator's inline tables: "WITH cte1 (f1) AS ..." looks like a call
 }
 
 // evalSafe decides from the token sequence whether evaluating the text is
@@ -292,7 +293,7 @@ func evalSafe(toks []parser.Token) bool {
 				return false
 			}
 		case parser.IDENTIFIER:
-			if strings.ContainsAny(tk.Literal, "/\\") || strings.Contains(tk.Literal, "..") {
+			if strings.Contains(tk.Literal, "/") || strings.Contains(tk.Literal, "..") {
 				return false
 			}
 			if i+1 < len(toks) && toks[i+1].Token == '(' && !safeFunctions[strings.ToUpper(tk.Literal)] {
@@ -306,14 +307,14 @@ func evalSafe(toks []parser.Token) bool {
 const fixtureSetup = "VAR @v1 := 3, @v2 := 'str', @v3;\n" +
 	"SET @%C18_ENV = 'envval';\n" +
 	"SET @%`C18 ENV` = 'quoted env';\n" +
-	"DECLARE cur CURSOR FOR SELECT c1 FROM t1;\n" +
-	"OPEN cur;\n" +
-	"FETCH cur INTO @v3;\n" +
 	"DECLARE cur2 CURSOR FOR SELECT c1 FROM t1;\n" +
 	"DECLARE udf FUNCTION (@a, @b DEFAULT 1) AS BEGIN RETURN @a + @b; END;\n" +
 	"DECLARE uagg AGGREGATE (list, @d DEFAULT 0) AS BEGIN VAR @s := @d, @x; WHILE @x IN list DO IF @x IS NOT NULL THEN @s := @s + 1; END IF; END WHILE; RETURN @s; END;\n" +
 	"DECLARE tmp VIEW (a, b);\n" +
-	"INSERT INTO tmp VALUES (1, 'x'), (2, NULL), (NULL, 'z');\n"
+	"INSERT INTO tmp VALUES (1, 'x'), (2, NULL), (NULL, 'z');\n" +
+	"DECLARE cur CURSOR FOR SELECT a FROM tmp;\n" + // on the temporary table: no file access in the setup
+	"OPEN cur;\n" +
+	"FETCH cur INTO @v3;\n"
 
 var fixtureFiles = map[string]string{
 	"t1.csv":       "c1,c2,c3\n1,a,10\n2,b,\n3,,30\n2,b,40\n5,e,1.5\n",
@@ -504,6 +505,9 @@ func survives(typ, s string, prep, ansi bool) bool {
 		}
 		if e, ok := field("SELECT "+s, 1); ok && same(e) {
 			if e, ok := field("SELECT "+s+", 1", 2); ok && same(e) {
+				if typ == "FieldReference" && strings.HasSuffix(s, "*") {
+					return true // t.* is a field, not a value: it cannot stand in parentheses
+				}
 				if e, ok := field("SELECT ("+s+")", 1); ok {
 					if p, ok := e.(parser.Parentheses); ok && same(p.Expr) {
 						return true
@@ -848,7 +852,7 @@ func checkTotality(c totalCase) (fw.Outcome, *fw.Violation) {
 		return o, nil
 	}
 	o.Classes = append(o.Classes, "result:parsed", "kind:"+c.Kind+"/parsed")
-	if c.N <= 600 { // printing and re-parsing the giant stress shapes adds nothing
+	if c.N <= 60 { // printing (quadratic in the depth) and evaluating the giant stress shapes adds nothing
 		cls, v := checkParsed(src, out.stmts, c.Prepared, c.Ansi, true)
 		o.Classes = append(o.Classes, cls...)
 		if v != nil {
@@ -932,8 +936,8 @@ func checkRoundTrip(c rtCase) (fw.Outcome, *fw.Violation) {
 }
 
 func genRTCase(t *rapid.T) rtCase {
-	prep := fw.Chance(t, "prepared", 30)
-	ansi := fw.Chance(t, "ansi", 40)
+	prep := chance(t, "prepared", 30)
+	ansi := chance(t, "ansi", 40)
 	sql, feats := genQueryText(t, prep, ansi)
 	return rtCase{Sql: sql, Prepared: prep, Ansi: ansi, Feats: feats}
 }
